@@ -34,22 +34,19 @@ PlainVar(var) == Len(var.fields) = 1 /\ var.style = "tuple" /\ var.fields[1].int
 
 \* The space is pruned while it is built: a field is only on offer if the
 \* deviation budget (non-P types + markers, t-way coverage) still allows it,
-\* and the second variant of an enum whose first variant is not plain is the
-\* plain `V(x)`.
+\* (both variants of an enum may be rich: what one variant leaves behind in a handler loop -- a method, a skip prefix --
+\* only shows in the next one; the deviation budget is what keeps the space small).
 MCFieldSet(c) ==
   IF NVariants(c) = 0 THEN {}
   ELSE LET lv == Last(c.variants)
            all == { [DefField EXCEPT !.ty = t, !.into = m] : t \in {"P", "A", "B"}, m \in IntoChoices(c) }
            afford == { f \in all : VarsDev(c.variants) + FieldDev(f) <= MaxDeviations }
-       IN IF NVariants(c) = 2 /\ ~PlainVar(c.variants[1])
-          THEN IF lv.style = "tuple" /\ Len(lv.fields) = 0 THEN { f \in afford : f.into = <<>> } ELSE {}
-          ELSE afford
+       IN afford
 
 MCBoundOK(c) ==
   /\ NVariants(c) >= 1
   /\ \A v \in 1..NVariants(c) : NFields(c, v) >= 1
   /\ VarsDev(c.variants) <= MaxDeviations
-  /\ NVariants(c) > 1 => \E v \in 1..NVariants(c) : PlainVar(c.variants[v])
   \* what is left to the semantic predicate: the designation itself; an identity-less conversion from a
   \* target-typed field (A into B) is simply ill-typed user input, not a refusal, so it stays out of both corpora
   /\ \A v \in 1..NVariants(c) : \A k \in DOMAIN c.opts.targets :
